@@ -3362,6 +3362,12 @@ func r08_6(c *Ctx) {
 							bound = cnd.X
 						}
 						_, isCount := isFieldLoad(stripConvAll(bound), "queue", "count")
+						if isCount {
+							// IDs oldest … oldest+count-1 are buffered: the distance must be strictly below count
+							strict := op == token.LSS || op == token.GEQ
+							c.check(strict, name+":range-check-strict#"+itoa(k), P.ipos(ifi), "a distance equal to the number of buffered events is rejected (that ID is the next one to be issued)",
+								"the range check admits a distance equal to the number of buffered events: the ID one past the newest — never issued yet — is looked up, the position computed for it lies beyond the newest slot and the whole buffer is replayed")
+						}
 						c.check(isCount, name+":range-check-against-count#"+itoa(k), P.ipos(ifi), "the distance from the oldest buffered ID is compared with the number of buffered events",
 							"the distance from the oldest buffered ID is compared with "+exprShape(bound, 0)+" instead of the number of buffered events (queue.count): while the ring is not full a never-issued ID passes the test and everything buffered is replayed")
 					}
@@ -3370,6 +3376,32 @@ func r08_6(c *Ctx) {
 					"a value computed from the parsed IDs is converted to "+db.Name()+" before any range check: IDs that differ by a multiple of the narrower type's range (or exceed the signed range) are confused, so a never-issued ID is treated as a buffered one")
 			})
 		}
+	}
+	// (f2) slot positions wrap at the length of the backing array: the number of buffered events is not a
+	// position bound (while the ring is not full, or after it wrapped, the two differ)
+	{
+		bad := ""
+		var allIfs []*ssa.If
+		for _, g := range lookupRegion {
+			allIfs = append(allIfs, ifsInOnly(g)...)
+		}
+		for _, ifi := range allIfs {
+			cnd := decodeIf(ifi)
+			if cnd.Y == nil || (cnd.Op != token.EQL && cnd.Op != token.NEQ) {
+				continue
+			}
+			for _, pr := range [][2]ssa.Value{{cnd.X, cnd.Y}, {cnd.Y, cnd.X}} {
+				if _, isCount := isFieldLoad(stripConvAll(pr[0]), "queue", "count"); !isCount {
+					continue
+				}
+				if _, isK := pr[1].(*ssa.Const); isK {
+					continue
+				}
+				bad = P.ipos(ifi)
+			}
+		}
+		c.check(bad == "", name+":position-not-compared-with-count", "-", "no slot position is tested for equality with the number of buffered events",
+			"a slot position is tested for equality with queue.count (at "+bad+"): positions wrap at len(queue.buf); with a partly filled ring the position after the newest event equals count, is reset to 0 and the whole buffer is replayed for the newest ID")
 	}
 	// (g) a position computed from the parsed IDs that is found beyond a bound is brought back by subtracting
 	// that bound (the distance may exceed one slot), not by resetting it to a constant
